@@ -81,6 +81,11 @@ Fixpoint emitted (W : prog) (s : state) : list Z :=
   | PIf c a b => match evalc s no_locals c with
                  | Ok x => if fst x =? 0 then emitted b s else emitted a s
                  | Err _ => [] end
+  | PAssign f e k =>        (* only in programs outside the theorems; used by the executable oracle *)
+      match kind_of f with
+      | Some (KScalar t) => match eval_as cs call t s no_locals e with
+                            | Ok v => emitted k (upd s f (VInt v)) | Err _ => [] end
+      | _ => [] end
   | _ => []
   end.
 
